@@ -48,7 +48,7 @@ func c03R1(c *Ctx) {
 		g := guardedBy(in, false, isUnresolvableTest)
 		c.verdict(g != nil, rule, what+"@"+c.fnName(fn), c.instrPos(in), what+" only for nodes that did not fail", what+" is reachable for a node whose resolution status is `unresolvable`: a step whose prerequisite failed would be given input / a failed output would be returned")
 	}
-	eachInstr(fn, func(r instrRef) {
+	c.eachInstrLogical(fn, func(r instrRef) {
 		switch x := r.I.(type) {
 		case *ssa.Send:
 			if loadedField(x.Chan) == chF {
@@ -82,7 +82,7 @@ func c03R2(c *Ctx) {
 		return
 	}
 	n := 0
-	eachInstr(fn, func(r instrRef) {
+	c.eachInstrLogical(fn, func(r instrRef) {
 		s, ok := r.I.(*ssa.Send)
 		if !ok || loadedField(s.Chan) != chF {
 			return
@@ -117,6 +117,7 @@ func c03R2(c *Ctx) {
 			c.undecided(rule, key, c.instrPos(s), "cannot find the fields of the value sent on outputDataChannel")
 			return
 		}
+		idVal = throughParams(idVal)
 		var item ssa.Value
 		idOK := loadedField(idVal) == idF
 		if idOK {
@@ -271,7 +272,7 @@ func c03R4(c *Ctx) {
 				// success return
 				var entry ssa.Value
 				for _, p := range fn.Params {
-					if strings.HasSuffix(p.Type().String(), "outputDataType") {
+					if strings.HasSuffix(normTypeNames(p.Type().String()), "outputDataType") {
 						entry = p
 					}
 				}
